@@ -107,9 +107,15 @@ class Program(object):
             statement.translate()
 
         while not self.all_sizes_fixed():
+            progress = False
             for index, statement in enumerate(self.statements):
                 if not statement.fixed_size:
                     statement.determine_pcr_relative_sizes(self.statements, index)
+                    progress = progress or statement.fixed_size
+            if not progress:
+                # no estimate could decide: the first undecided statement takes the 16-bit form
+                index, statement = next((i, s) for i, s in enumerate(self.statements) if not s.fixed_size)
+                statement.determine_pcr_relative_sizes(self.statements, index, force_16_bit=True)
 
         address = 0
         for index, statement in enumerate(self.statements):
